@@ -49,6 +49,9 @@ structure GLang where
   types : Lang
   cfg : CanonCfg := {}
   canon : List Ty := []
+  /-- the inference store at the time the graph is built: node types are read through it wherever the Python code
+  follows bindings (`normalize()`), and not where it does not (see `Tfv.fixExpr`) -/
+  store : Store := {}
   deriving Repr, Inhabited
 
 inductive GErr where
@@ -201,13 +204,14 @@ def gAddFrom (c : GCfg) (g : GState) (a b : Nat) (recursive : Bool := false) : G
   else { g with fd := { g.fd with frm := (a, b) :: g.fd.frm } }
 
 /-- `: type`, `subtypeOf`, `containsType` annotations of a source or an operation node (graph.py:254-272 / 291-312) -/
-def annotateType (G : GLang) (c : GCfg) (g : GState) (root : Node) (current : Nat) (ty : Term) (membershipFirst : Bool) :
-    Except GErr GState :=
+def annotateType (G : GLang) (c : GCfg) (g : GState) (root : Node) (current : Nat) (ty : Term) (membershipFirst : Bool)
+    (canonicalOverride : Option Bool := none) : Except GErr GState :=
   match addType G c typeFuel g ty with
   | .error e => .error e
   | .ok (g, tn) =>
     let g := g.add (.b current, .tf "type", tn)
-    let canonical := inCanon G ty
+    -- for a source, `canonical` was decided on the stored (unfollowed) type object
+    let canonical := canonicalOverride.getD (inCanon G ty)
     -- the two branches of `add_expr` emit the same triples in a different order; a set does not care
     let _ := membershipFirst
     let g := if c.withSupertypes && canonical then g.add (.b current, .tf "subtypeOf", tn) else g
@@ -247,9 +251,11 @@ def addExpr (G : GLang) (c : GCfg) (root : Node) (origin : Option Node) :
         | some k => (g, k)
         | none => g.fresh
       let g := { g with srcNodes := g.srcNodes ++ [(id, cur)] }
+      -- `expr.type in canon` hashes the stored type object: a variable in it, even one bound since, makes it a non-member
       let canonical := inCanon G ty
       let r : Except GErr GState :=
-        if c.withTypes && (canonical || c.withNoncanonicalTypes) then annotateType G c g root cur ty false else .ok g
+        if c.withTypes && (canonical || c.withNoncanonicalTypes) then
+          annotateType G c g root cur (normT G.store ty) false (some canonical) else .ok g
       match r with
       | .error e => .error e
       | .ok g =>
@@ -261,7 +267,8 @@ def addExpr (G : GLang) (c : GCfg) (root : Node) (origin : Option Node) :
     let (g, cur) := match current with
       | some k => (g, k)
       | none => g.fresh
-    let out := outputType 1000 ty
+    -- `expr.type.output().normalize()`: `output()` walks the stored type object, then the result is followed
+    let out := normT G.store (outputType 1000 ty)
     let canonical := c.withNoncanonicalTypes || inCanon G out
     let essential := c.withIntermediateTypes || !intermediate
     let g := if c.withOperators then
